@@ -1049,7 +1049,7 @@ func RectClipPathsD(rect RectD, paths PathsD, precisionV ...int) PathsD {
 
 	rc := NewRectClip64(r)
 	result := rc.Execute(tmpPaths)
-	return ScalePaths64ToPathsD(result, scale)
+	return ScalePaths64ToPathsD(result, 1/scale)
 }
 
 func RectClipPathD(rect RectD, path PathD) PathsD {
